@@ -54,6 +54,9 @@ class Gensym:
         while ident in self._idents:
             ident.count = self._counter
             self._counter += 1
+            # `NamedId` caches its hash: re-create the renamed identifier so
+            # that it is looked up (and stored) under its own hash
+            ident = self._copy_id(ident)
 
         self._idents.add(ident)
         self._generated.add(ident)
